@@ -13,7 +13,9 @@ MANIFEST = dict(
          "_log_prior_unit_hypercube (physical and unit-hypercube mode, parallelise_prior on/off, distinct exactly rounded "
          "likelihood / prior / hypercube-prior functions so that a mixed-up wrapper is visible) with a fake order-preserving "
          "pool (real fork pools in the thorough tier).",
-    note="Assumed: Pool.map preserves order; the user function is batch-consistent.",
+    note="Assumed: Pool.map preserves order; the user function is batch-consistent. 'counter += n once' is definitional in the model "
+         "(batchEvalCount returns n by construction) and the unit-hypercube mapping / wrapper selection / parallelise_prior switch "
+         "have no theorem: all three are established by the correspondence against the real Model methods only.",
     technique="Lean 4 proof (induction over lists) + differential correspondence with the real functions",
     ref="5/C10")
 
